@@ -177,6 +177,8 @@ type FnTrans struct {
 	recordGets        map[string]bool
 	lastCallRes       ssa.Value
 	singleAssignCache map[*ssa.Alloc]*ssa.Store
+	stableFV          map[*ssa.FreeVar]bool
+	rangeDepth        int
 	collectUnlocked   *[]string // while evaluating a callee's requires: lock components it needs unlocked (it acquires them)
 	tpEvents          []tpEvent
 	deferSite         ssa.Instruction
@@ -600,6 +602,25 @@ func (t *FnTrans) rangeFact(x string, T types.Type) string {
 		if t.sortOf(T) == "Str" {
 			return "true"
 		}
+	case *types.Struct:
+		// a struct value: the facts of its fields (references it holds denote allocated objects)
+		st := T.Underlying().(*types.Struct)
+		if st.NumFields() == 0 || t.rangeDepth > 2 {
+			return "true"
+		}
+		t.rangeDepth++
+		defer func() { t.rangeDepth-- }()
+		sn := t.structSort(T, st)
+		var fs []string
+		for i := 0; i < st.NumFields(); i++ {
+			if f := t.rangeFact(app(q(sn+"."+fieldAcc(st, i)), x), st.Field(i).Type()); f != "true" {
+				fs = append(fs, f)
+			}
+		}
+		if len(fs) == 0 {
+			return "true"
+		}
+		return and(fs...)
 	}
 	return "true"
 }
@@ -659,7 +680,7 @@ func (t *FnTrans) havocRest() {
 
 // genVersion: the term component c denotes in generation gen
 func (t *FnTrans) genVersion(c, gen string) string {
-	if gen == "" || strings.HasPrefix(c, "L.") {
+	if gen == "" || strings.HasPrefix(c, "L.") || strings.HasPrefix(c, "GL.") {
 		// lock state of the current goroutine is not changed by callees (balanced locking assumed for unknown code)
 		return t.entryVersion(c)
 	}
